@@ -96,7 +96,11 @@ def shortcut_cases():
         out.append((f"symmetric-block:{nm}:constraint", D2, ["var", "s"], [["rel", "<=", ["msum", blk], ["raw", 3.0, "float"], "direct"]]))
     # element bounds that differ from the container's: a binary vector (elements (0, 1), the vector itself unbounded), an integer vector
     # with odd bounds, rows of diag_matrix (off-diagonal entries pinned to (0, 0))
-    D3 = [{"k": "vec", "name": "b", "n": 4, "dom": "binary"}, {"k": "vec", "name": "k", "n": 3, "dom": "integer", "lb": -2.0, "ub": 7.0}, {"k": "vec", "name": "y", "n": 3, "lb": 0.5}]
+    D3 = [{"k": "vec", "name": "b", "n": 4, "dom": "binary"}, {"k": "vec", "name": "k", "n": 3, "dom": "integer", "lb": -2.0, "ub": 7.0}, {"k": "vec", "name": "y", "n": 3, "lb": 0.5},
+          {"k": "vec", "name": "fb", "n": 3, "dom": "binary", "via": "from_numpy"}, {"k": "vec", "name": "fk", "n": 4, "dom": "integer", "lb": 1.0, "ub": 9.0, "via": "from_numpy"}]
+    for nm, v in [("from_numpy-binary", ["vec", "fb"]), ("from_numpy-integer-slice", ["slice", ["vec", "fk"], 1, 4, None])]:
+        out.append((f"shortcut:element-bounds:{nm}:sum", D3, ["sum", v], [["rel", ">=", ["sum", v], ["raw", 0.5, "float"], "direct"]]))
+        out.append((f"near-miss:element-bounds:{nm}:with-scalar-term", D3, ["bin", "+", ["sum", v], ["el", ["vec", "y"], 0]], []))
     for nm, v in [("binary-vector", ["vec", "b"]), ("binary-slice", ["slice", ["vec", "b"], 1, 4, None]), ("integer-reversed", ["slice", ["vec", "k"], None, None, -1]),
                   ("diag-matrix-row", ["row", ["dmat", ["vec", "y"]], 0]), ("diag-matrix-column", ["col", ["dmat", ["vec", "y"]], 2])]:
         out.append((f"shortcut:element-bounds:{nm}:sum", D3, ["sum", v], [["rel", ">=", ["sum", v], ["raw", 0.5, "float"], "direct"]]))
@@ -147,7 +151,7 @@ def info(tier):
         "name order) and random problems (generated objective + 0-3 generated relations); Problem.variables / n_variables / "
         "get_bounds / domains compared with the recipe-level syntactic set, an independent natural sort and the declarations; "
         "distinct = canonical problem hashes" % len(shortcut_cases()),
-        "required_cells": sorted({c for c, _, _, _ in shortcut_cases()}) + ["name-stress", "random", "deep-objective", "deep-objective-exclusive-vector", "history", "shortcut:element-bound-edited", "names:re-declared-with-another-domain"],
+        "required_cells": sorted({c for c, _, _, _ in shortcut_cases()}) + ["name-stress", "random", "deep-objective", "deep-objective-exclusive-vector", "history", "shortcut:element-bound-edited", "names:re-declared-with-another-domain", "shared-objective-object"],
         "assumptions": ["'mentioned' = syntactic occurrence in the recipe (x*0 still mentions x)"],
     }
 
@@ -242,6 +246,9 @@ def run(ctx, rec):
                     nm = None
                 if nm and not nm.startswith("_diag_"):
                     check(rec, "shortcut:element-bound-edited", decls, obj, cons, bound_edits={nm: [0.25, 1.5]})
+    for k_ in range(32):
+        if ctx.mine(k_):
+            run_shared_objects(rec, rng, k_)
     n = 0
     while n < N_RANDOM[ctx.tier] and not rec.out_of_time():
         n += 1
@@ -295,6 +302,52 @@ def run(ctx, rec):
             for t in terms[1:]:
                 obj = ["bin", rng.choice(["+", "-"]), obj, t]
             check(rec, "deep-objective", g.decls, obj, [])
+
+
+def run_shared_objects(rec, rng, k):
+    """One objective expression OBJECT used by two Problems with different constraints: each problem's variables are exactly what it
+    mentions - reading one problem's variables must not leak into the expression node or the other problem."""
+    import optyx
+
+    rec.case({"shared-objects": k})
+    decls = [{"k": "vec", "name": "x", "n": 4, "lb": 0.0}, {"k": "vec", "name": "y", "n": 3}, {"k": "var", "name": "s", "ub": 5.0}, {"k": "var", "name": "t"}]
+    x, y = ["vec", "x"], ["vec", "y"]
+    objs = [["sum", x], ["neg", ["sum", x]], ["matmul", ["arr", [1.0, 2.0, 3.0, 4.0]], x], ["dot", x, x], ["sum", ["vpow", x, 2]], ["bin", "+", ["sum", x], ["var", "s"]],
+            ["norm", x, 2, "method"], ["sum", ["vbin", "*", x, ["raw", 2.0, "float"]]]]
+    obj = objs[k % len(objs)]
+    consA = [["rel", ">=", ["bin", "+", ["el", x, 0], ["el", y, 1]], ["raw", 1.0, "float"], "direct"], ["rel", "<=", ["var", "t"], ["raw", 2.0, "float"], "direct"]]
+    consB = [["rel", "<=", ["sum", ["slice", x, 0, 2, None]], ["raw", 3.0, "float"], "direct"]] if k % 2 else []
+    b = B.Builder(decls)
+    obj_e = b.S(obj)
+    PA = optyx.Problem().minimize(obj_e)
+    for c in consA:
+        PA.subject_to(b.rel(c))
+    PB = optyx.Problem().minimize(obj_e)
+    for c in consB:
+        PB.subject_to(b.rel(c))
+    wantA = SC.mentioned({"decls": decls, "objective": obj, "constraints": consA})
+    wantB = SC.mentioned({"decls": decls, "objective": obj, "constraints": consB})
+    show = {"objective": A.render(obj), "A": [A.render(c) for c in consA], "B": [A.render(c) for c in consB]}
+    order = [("A", PA, wantA), ("B", PB, wantB), ("A", PA, wantA), ("B", PB, wantB)] if k % 4 < 2 else [("B", PB, wantB), ("A", PA, wantA), ("B", PB, wantB)]
+    for step, (label, P, want) in enumerate(order):
+        if step == 2:
+            # force a recomputation: an edit that does not change what is mentioned
+            P.subject_to(b.rel(["rel", "<=", ["el", x, 0], ["raw", 9.0, "float"], "direct"]))
+        try:
+            got = [v.name for v in P.variables]
+            n_ = P.n_variables
+            nb = len(P.get_bounds())
+        except Exception as ex:
+            rec.violation("shared-objective:variables-raises:" + type(ex).__name__, {"show": show, "error": repr(ex)[:200]})
+            return
+        rec.cmp(1, "shared-objective-object")
+        if got != want or n_ != len(want) or nb != len(want):
+            extra = sorted(set(got) - set(want))
+            rec.violation("variables-extra" if extra else "variables-missing-or-misordered", {"show": show, "problem": label, "step": step, "got": got, "want": want, "n_variables": n_})
+            return
+    ov = sorted(v.name for v in obj_e.get_variables())
+    if ov != sorted(SC.mentioned({"decls": decls, "objective": obj, "constraints": []})):
+        rec.violation("expression-variables-changed-by-a-problem-that-used-it", {"show": show, "got": ov})
 
 
 def run_history(rec, rng):
